@@ -80,7 +80,11 @@ def c01(tier, seed):
 
 @prop('C03')
 def c03(tier, seed):
-    return run_onestep('C03', tier, seed, ['mem', 'alt:/a'], ['mem', 'alt:/a', 'alt:/a/b', 'altalt'], ALL_OPS)
+    from . import overlay
+    plan = [('UO3', 2, dict(ncfg=60 if tier == 'quick' else None, k1_ops=overlay.HIST_OPS, k2=6 if tier == 'quick' else 60, k3=2 if tier == 'quick' else 20, removal_first=True))]
+    if tier != 'quick':
+        plan += [('UO3', 3, dict(ncfg=300, k1_ops=overlay.HIST_OPS, k2=10, removal_first=True)), ('UO4', 2, dict(ncfg=300, k1_ops=overlay.HIST_OPS, k2=10, removal_first=True))]
+    return run_onestep('C03', tier, seed, ['mem', 'alt:/a'], ['mem', 'alt:/a', 'alt:/a/b', 'altalt'], ALL_OPS, overlay_plan=plan)
 
 
 @prop('C13')
